@@ -372,6 +372,12 @@ class Function:
         path entry->i2 passes i1."""
         if i1 is i2:
             return True
+        if isinstance(i2, EdgePoint):
+            if i2.bto not in self.succs(self.blocks[i2.bfrom]):
+                return True
+            i2 = i2.term
+            if i1 is i2:
+                return True
         e = self.entry_inst()
         if e is i1:
             return True
@@ -379,7 +385,16 @@ class Function:
         return i2 not in r
 
     def edge_dominates(self, bfrom, bto, target):
-        """every feasible path entry -> target(Inst) traverses CFG edge bfrom->bto"""
+        """every feasible path entry -> target traverses CFG edge bfrom->bto.
+        target is an Inst or an EdgePoint (the CFG edge itself being traversed)."""
+        tedge = None
+        if isinstance(target, EdgePoint):
+            tedge = (target.bfrom, target.bto)
+            if tedge == (bfrom, bto):
+                return True
+            if target.bto not in self.succs(self.blocks[target.bfrom]):
+                return True  # infeasible edge: vacuous
+            target = self.blocks[target.bfrom].insts[-1]
         e = self.entry_inst()
         seen = set()
         dq = deque([e])
@@ -557,6 +572,22 @@ class Function:
 
     def loads_of(self, field):
         return self.mem_accesses(field, ops=('load',))
+
+
+class EdgePoint:
+    """a program point on a CFG edge (used for phi-selected return values)"""
+
+    def __init__(self, fn, bfrom, bto):
+        self.fn = fn
+        self.bfrom = bfrom
+        self.bto = bto
+        self.term = fn.blocks[bfrom].insts[-1]
+        self.loc = self.term.loc
+        self.id = 'edge:%d->%d' % (bfrom, bto)
+        self.block = fn.blocks[bfrom]
+
+    def __repr__(self):
+        return '<edge %d->%d @%s>' % (self.bfrom, self.bto, self.loc)
 
 
 class AccessPath:
